@@ -651,6 +651,7 @@ func (x *Exec) loop(s ast.Stmt, st *State, cx *Ctx, k func(*State)) {
 			nS := app("store", S, key, "true")
 			if vs == "Int" {
 				iter.assume(app("=", app("msumR", d, v, nS), app("+", app("msumR", d, v, S), app("nn", val.T))))
+				iter.assume(app(">=", app("msum", d, v), app("nn", val.T)))
 				iter.assume(app("<=", app("msumR", d, v, nS), app("msum", d, v)))
 			}
 			iter.ghostTmp = map[string]Val{"$key": kv}
@@ -868,11 +869,14 @@ func (x *Exec) modAnalysis(loop ast.Stmt, st *State) *modSet {
 				case *ast.SelectorExpr:
 					if _, isPtr := types.Unalias(info.TypeOf(l.X)).Underlying().(*types.Pointer); isPtr {
 						nm, _ := ptrStruct(info.TypeOf(l.X))
-						addTarget("", l, func() string {
-							name := fieldComp(nm, l.Sel.Name)
-							x.comp(st, name, arrayOf(x.w.sortOf(info.TypeOf(l))))
-							return name
-						})
+						name := fieldComp(nm, l.Sel.Name)
+						x.comp(st, name, arrayOf(x.w.sortOf(info.TypeOf(l))))
+						if sx := exprSX(l); sx != nil && invariantExpr(l.X) {
+							ms.sx = append(ms.sx, sx)
+							ms.binds = append(ms.binds, nil)
+						} else {
+							ms.whole[name] = true
+						}
 					}
 				case *ast.IndexExpr:
 					bt := info.TypeOf(l.X)
@@ -1153,6 +1157,13 @@ func verifyFunc(w *World, sp *Specs, prog *Program, fi *FuncInfo, spec *FuncSpec
 		var rs []Val
 		for i, r := range res {
 			t := results.At(i).Type()
+			if want := x.w.sortOf(t); r.S != want {
+				if r.T == "0" { // untyped nil
+					r = Val{T: x.w.zero(want), S: want, G: t}
+				} else {
+					x.unsupported(fi.decl, fmt.Sprintf("result %d has sort %s, want %s", i, r.S, want))
+				}
+			}
 			c := x.freshConst("result", r.S)
 			st.assume(app("=", c, r.T))
 			rs = append(rs, Val{T: c, S: r.S, G: t})
@@ -1240,6 +1251,10 @@ func (x *Exec) checkFrame(st *State) {
 				s := envp.eval(t.Args[0])
 				es, _ := x.elemSort(s)
 				targets["arr_"+sortTag(es)] = append(targets["arr_"+sortTag(es)], app("sl_arr", s.T))
+			case t.Op == "call" && t.Name == "anyelems":
+				s := envp.eval(t.Args[0])
+				es, _ := x.elemSort(s)
+				targets["arr_"+sortTag(es)] = append(targets["arr_"+sortTag(es)], "*")
 			}
 		}
 	}
@@ -1267,6 +1282,15 @@ func (x *Exec) checkFrame(st *State) {
 			continue
 		}
 		var goals []string
+		anyOK := false
+		for _, r := range targets[name] {
+			if r == "*" {
+				anyOK = true
+			}
+		}
+		if anyOK {
+			continue
+		}
 		for _, w := range st.writes[name] {
 			if w.ref == "*" {
 				goals = append(goals, not(w.guard))
